@@ -1118,7 +1118,9 @@ def fromFunction(func, interface=None, imlevel=0, name=None):
     method.required = names[:nr]
     method.optional = opt
 
-    argno = na
+    # ``*args`` and ``**kw`` come after the keyword-only names in
+    # ``co_varnames``.
+    argno = na + code.co_kwonlyargcount
 
     # Determine the function's variable argument's name (i.e. *args)
     if code.co_flags & CO_VARARGS:
